@@ -24,14 +24,17 @@ pub struct Case {
     pub image: Vec<u8>,
     pub items: Vec<ROp>,
     pub cut_words: usize,
+    /// byte-stream backends only: cut inside a word, after this many bytes
+    pub cut_bytes: Option<usize>,
 }
 impl Case {
     fn to_kv(&self) -> String {
-        format!("cfg={} image={} cut={} items={}", self.cfg.name(), hex(&self.image), self.cut_words, rops_to_string(&self.items))
+        format!("cfg={} image={} cut={} cutbytes={} items={}", self.cfg.name(), hex(&self.image), self.cut_words, self.cut_bytes.map(|b| b as i64).unwrap_or(-1), rops_to_string(&self.items))
     }
     fn from_kv(s: &str) -> Case {
         let kv = Kv::parse(s);
-        Case { cfg: parse_rcfg(kv.get("cfg")), image: unhex(kv.get("image")), cut_words: kv.usize("cut"), items: parse_rops(kv.get("items")) }
+        let cb = kv.opt("cutbytes").and_then(|s| s.parse::<i64>().ok()).filter(|b| *b >= 0).map(|b| b as usize);
+        Case { cfg: parse_rcfg(kv.get("cfg")), image: unhex(kv.get("image")), cut_words: kv.usize("cut"), cut_bytes: cb, items: parse_rops(kv.get("items")) }
     }
 }
 
@@ -49,10 +52,15 @@ pub fn check_case(c: &Case, rep: &mut Report) {
     let w = c.cfg.kind.word_bits();
     let wb = w / 8;
     let full = bits_of_image(&c.image, e);
-    let cut_bits = c.cut_words * w;
+    // a cut inside a word (byte streams): the bytes of the partial word exist, but the adapter
+    // asks for whole words, so what lies in the partial word may or may not be readable
+    // (not judged); nothing at or beyond the cut may ever be produced
+    let (cut_bits, complete_bits, timg): (usize, usize, &[u8]) = match c.cut_bytes {
+        Some(b) => (b * 8, (b / wb) * w, &c.image[..b]),
+        None => (c.cut_words * w, c.cut_words * w, &c.image[..c.cut_words * wb]),
+    };
     let data = &full[..cut_bits];
-    let timg = &c.image[..c.cut_words * wb];
-    let mut h = make_reader(c.cfg, timg);
+    let mut h = if c.cut_bytes.is_some() { make_reader_unaligned(c.cfg, timg) } else { make_reader(c.cfg, timg) };
     let mut pos = 0usize;
     let sigbase = format!("{}|{}|{}", e.name(), c.cfg.kind.name(), if zext { "zext" } else { "strict" });
     // for the zero-extended twin: the data followed by zeros
@@ -82,7 +90,8 @@ pub fn check_case(c: &Case, rep: &mut Report) {
             ROp::Peek(n) => pos + n,
             _ => fend,
         };
-        let within = need_end <= cut_bits;
+        let within = need_end <= complete_bits;
+        let limbo = !within && need_end <= cut_bits; // touches the partial trailing word
         // zero-extended twin: what the data followed by zeros holds here (None: the item
         // does not terminate / is not decodable over zeros, so it is not issued at all -
         // the library documents that such reads may loop forever)
@@ -113,6 +122,21 @@ pub fn check_case(c: &Case, rep: &mut Report) {
         let rel = if within { (cut_bits - need_end) / w } else { 0 };
         rep.case(&(e, c.cfg.kind, c.cfg.be.name(), item_name(op), within, rel.min(3), (cut_bits as i64 - need_end as i64).signum()));
         let kvf = || c.to_kv();
+        if limbo {
+            // either outcome is acceptable, but a value, if produced, must be the right one
+            let exp = if matches!(op, ROp::IoRead(_)) { None } else { fv };
+            match &got {
+                Out::Ok(v) if *v == exp => {
+                    pos = fend;
+                    continue;
+                }
+                Out::Err(_) => return,
+                o => {
+                    rep.violation(&format!("{}|{}|partial-word-{}", sigbase, item_name(op), if o.is_ok() { "wrong-value".to_string() } else { o.class() }), || format!("item #{} {} in the partial trailing word returned {} (expected {:?} or an error)", i, op.to_string(), o.show(), exp), kvf);
+                    return;
+                }
+            }
+        }
         if within {
             // the item lies entirely within the data: it must decode, on every backend
             let exp = if matches!(op, ROp::IoRead(_)) { None } else { fv };
@@ -289,7 +313,18 @@ pub fn run(ctx: &Ctx) -> Report {
                             if !thorough && bi >= 2 && bi < 6 && (fi + d + cut + bi) % 2 != 0 {
                                 continue;
                             }
-                            check_case(&Case { cfg: RCfg { e, kind, be: *be }, image: img.clone(), items: items.clone(), cut_words: cut }, rep);
+                            check_case(&Case { cfg: RCfg { e, kind, be: *be }, image: img.clone(), items: items.clone(), cut_words: cut, cut_bytes: None }, rep);
+                        }
+                    }
+                    // byte streams may also end inside a word
+                    if wb > 1 {
+                        for cb in 0..img.len() {
+                            if cb % wb == 0 || (!thorough && (cb + fi + d) % 3 != 0) {
+                                continue;
+                            }
+                            for be in [RBackend::AdCursor, RBackend::AdBufReader] {
+                                check_case(&Case { cfg: RCfg { e, kind, be }, image: img.clone(), items: items.clone(), cut_words: cb / wb, cut_bytes: Some(cb) }, rep);
+                            }
                         }
                     }
                 }
@@ -314,7 +349,7 @@ pub fn run(ctx: &Ctx) -> Report {
             let nwords = img.len() / wb;
             for cut in 0..=nwords {
                 for be in &backends {
-                    check_case(&Case { cfg: RCfg { e, kind, be: *be }, image: img.clone(), items: items.clone(), cut_words: cut }, rep);
+                    check_case(&Case { cfg: RCfg { e, kind, be: *be }, image: img.clone(), items: items.clone(), cut_words: cut, cut_bytes: None }, rep);
                 }
             }
         }
